@@ -88,6 +88,9 @@ pub enum Req {
     /// approving approver (`PositiveApprover`, the PreapproveKeysend path of a permissive signer):
     /// look-up, approval and `Node::add_keysend`
     Keysend { h: u8 },
+    /// `TipInfo` through the root handler (what a chain follower asks before every block): the
+    /// reply pairs a height with the hash of the block at that height
+    WireTipInfo,
 }
 
 #[derive(Clone, Debug, Serialize, Deserialize)]
@@ -125,6 +128,7 @@ fn req_strat() -> impl Strategy<Value = Req> {
         4 => (0u8..2).prop_map(|h| Req::Invoice { h }),
         2 => (0u8..2).prop_map(|h| Req::IssueInvoice { h }),
         4 => (0u8..2).prop_map(|h| Req::Keysend { h }),
+        3 => Just(Req::WireTipInfo),
     ]
 }
 
@@ -295,6 +299,7 @@ struct Ctx2 {
     now: std::time::Duration,
     /// channel handlers (protocol version 4) for the two channels, over the same node
     handlers: Vec<vls_protocol_signer::handler::ChannelHandler>,
+    root: vls_protocol_signer::handler::RootHandler,
 }
 
 impl Ctx2 {
@@ -405,9 +410,12 @@ fn prepare(f: &Fresh) -> Ctx2 {
         let (done, _reply) = init.handle(msgs::from_vec(m.inner().as_vec()).expect("init message")).expect("handshake");
         assert!(done, "handshake not complete");
         let root: RootHandler = init.into();
-        (0..2).map(|ci| root.for_new_client(ci as u64 + 1, model::PubKey(peer_id(w.chans[ci].spec.peer)), w.chans[ci].spec.dbid)).collect::<Vec<_>>()
+        let hs = (0..2).map(|ci| root.for_new_client(ci as u64 + 1, model::PubKey(peer_id(w.chans[ci].spec.peer)), w.chans[ci].spec.dbid)).collect::<Vec<_>>();
+        (hs, root)
     };
+    let (handlers, root) = handlers;
     Ctx2 {
+        root,
         now: {
             use lightning_signer::util::clock::Clock;
             std::time::Duration::from_secs(w.clock.now().as_secs())
@@ -576,6 +584,17 @@ fn exec(cx: &Ctx2, r: &Req) -> String {
                 Err(_) => "err".into(),
             }
         }
+        Req::WireTipInfo => {
+            use vls_protocol_signer::handler::Handler;
+            let msg = vls_protocol::msgs::from_vec(vls_protocol::msgs::Message::TipInfo(vls_protocol::msgs::TipInfo {}).inner().as_vec()).expect("request survives the wire");
+            match cx.root.handle(msg) {
+                Ok(rep) => match rep.as_any().downcast_ref::<vls_protocol::msgs::TipInfoReply>() {
+                    Some(r) => format!("ok:{}:{}", r.height, r.block_hash),
+                    None => "ok:?".into(),
+                },
+                Err(_) => "err".into(),
+            }
+        }
         Req::Invoice { h } => {
             use lightning_signer::bitcoin::hashes::sha256::Hash as Sha256;
             use lightning_signer::lightning::types::payment::PaymentSecret;
@@ -663,9 +682,40 @@ fn final_state(w: &World) -> String {
     }
     parts.push(format!("allow={:?}", node.allowlist().unwrap()));
     parts.push(format!("height={}", node.get_tracker().height()));
-    let dump = w.store_dump();
+    // the store entries are compared as JSON values in which lists of [key, value] pairs (the
+    // serialised form of the signer's hash maps, whose iteration order depends on the order of
+    // insertion) are sorted by key: the order of such a list is not state
+    let dump: Vec<(String, u64, Vec<u8>)> = w
+        .store_dump()
+        .into_iter()
+        .map(|(k, v, val)| match serde_json::from_slice::<serde_json::Value>(&val) {
+            Ok(j) => (k, v, serde_json::to_vec(&canonical_json(j)).unwrap_or(val)),
+            Err(_) => (k, v, val),
+        })
+        .collect();
     parts.push(format!("store={:x}", hash_of(&dump)));
+    if std::env::var("VERIF_DEBUG").is_ok() {
+        for (k, v, val) in dump.iter() {
+            parts.push(format!("  entry {} v{} {}", k, v, String::from_utf8_lossy(val)));
+        }
+    }
     parts.join("|")
+}
+
+fn canonical_json(v: serde_json::Value) -> serde_json::Value {
+    use serde_json::Value;
+    match v {
+        Value::Array(items) => {
+            let mut items: Vec<Value> = items.into_iter().map(canonical_json).collect();
+            let pairs = !items.is_empty() && items.iter().all(|i| matches!(i, Value::Array(p) if p.len() == 2 && p[0].is_string()));
+            if pairs {
+                items.sort_by_key(|i| i.as_array().map(|p| p[0].to_string()).unwrap_or_default());
+            }
+            Value::Array(items)
+        }
+        Value::Object(m) => Value::Object(m.into_iter().map(|(k, v)| (k, canonical_json(v))).collect()),
+        other => other,
+    }
 }
 
 #[derive(Clone, Debug, PartialEq, Eq, PartialOrd, Ord)]
@@ -956,6 +1006,12 @@ impl Prop for C20 {
             }
             Ok(_) => {
                 if let Some(o) = bad.lock().unwrap().clone() {
+                    if std::env::var("VERIF_DEBUG").is_ok() {
+                        eprintln!("concurrent state: {}", o.state);
+                        for so in seq.iter().filter(|so| so.replies == o.replies) {
+                            eprintln!("sequential state with the same replies: {}", so.state);
+                        }
+                    }
                     // the one recorded finding: the same keysend proposed through the approver by two
                         // threads at once (and nothing else in the program)
                         let all_ak = threads.iter().flatten().all(|r| matches!(r, Req::ApproverKeysend { .. }));
